@@ -709,7 +709,8 @@ namespace fixedmath
     //else check lo for underflow and shift left with d
     else if( ulo < (1<<16) )
       {
-      int lshbits{ std::max(cxx20::countl_zero( uhi ) - 30,0) >> 1 };
+      //uhi has to stay below 2^31 after the shift, uhi*uhi+ulo*ulo does not fit 64 bits otherwise
+      int lshbits{ std::min( std::max(cxx20::countl_zero( uhi ) - 30,0) >> 1, cxx20::countl_zero( uhi ) - 33 ) };
       uhi <<= lshbits;
       ulo <<= lshbits;
       return as_fixed( sqrt( as_fixed( (uhi*uhi+ulo*ulo)>>prec_) ).v  >> lshbits);
